@@ -97,6 +97,12 @@ type Config struct {
 	MaxSteps int
 	// IdleHops is the number of 2-hour clock hops tried when nothing is runnable and no deadline is known.
 	IdleHops int
+	// DemoteWrite, when k > 0, takes the CPU away from the worker that completes the k-th network write of the run
+	// (counted over all connections): for the next DemoteLen scheduler steps it is not picked while anything else can
+	// run ("the writer is descheduled right after its bytes reached the peer", the interleaving behind
+	// answer-before-the-waiter-is-registered bugs, which a memoryless random scheduler reaches with negligible probability).
+	DemoteWrite int
+	DemoteLen   int
 }
 
 type LockEdge struct {
@@ -130,6 +136,9 @@ type Sim struct {
 	LockWaits   int
 	Switches    int
 	start       time.Time
+	nwrites     int
+	demoted     *worker
+	demoteUntil int
 	stepClock   *atomic.Int64
 	infra       string
 	panicVal    interface{}
@@ -154,6 +163,21 @@ var StepCounter atomic.Int64
 
 //go:norace
 func Active() bool { return cur != nil && !cur.dead.Load() }
+
+// NoteNetWrite is called by the simulated network when a write has been handed over completely.
+//
+//go:norace
+func NoteNetWrite() {
+	if !Active() {
+		return
+	}
+	s := cur
+	s.nwrites++
+	if s.cfg.DemoteWrite > 0 && s.nwrites == s.cfg.DemoteWrite && s.current != nil {
+		s.demoted = s.current
+		s.demoteUntil = s.Steps + s.cfg.DemoteLen
+	}
+}
 
 //go:norace
 func (s *Sim) emit(e event) {
@@ -818,6 +842,20 @@ func (s *Sim) loop() Result {
 		nNet := 0
 		if s.hook != nil {
 			nNet = s.hook.Candidates()
+		}
+		if s.demoted != nil {
+			if s.Steps >= s.demoteUntil || s.demoted.state == stExited {
+				s.demoted = nil
+			} else if len(cand)+nNet > 1 {
+				k := 0
+				for _, w := range cand {
+					if w != s.demoted {
+						cand[k] = w
+						k++
+					}
+				}
+				cand = cand[:k]
+			}
 		}
 		if len(cand)+nNet == 0 {
 			// nothing runnable: advance time
